@@ -182,6 +182,7 @@ func gvbPool(depth int) []*gvbVal {
 	add("slice-inner", "empty", 2, func() any { return []gvbInner{} })
 	add("slice-inner", "1", 2, func() any { return []gvbInner{gvbInnerVal("a", 1)} })
 	add("slice-inner", "2", 0, func() any { return []gvbInner{gvbInnerVal(`quote"inside`, 300), gvbInnerVal("", 0)} })
+	add("slice-ptr-inner", "1", 2, func() any { a := gvbInnerVal("a", 1); return []*gvbInner{&a} })
 
 	if depth < 3 {
 		return pool
